@@ -14,7 +14,7 @@ git -C $rp status --short | head -5
 
 echo "== fix commits on fix/$first"
 # only commits whose patch is not yet on main (idempotent re-runs)
-commits=$(git -C /repo cherry main fix/$first | grep '^+' | cut -d' ' -f2)
+commits=$(git -C /repo cherry main fix/$first | grep "^+" | cut -d" " -f2); [ -n "${SKIP_PICK:-}" ] && commits=""
 for c in $commits; do
   msg=$(git -C /repo log -1 --format=%s $c)
   echo "   $c $msg"
